@@ -318,7 +318,7 @@ def nth (l : List Str) (i : Nat) : Option Str := l[i]?
 /-- commands with a handler in the model (`dispatchCommand`: `'do' + command.upper().capitalize()`) -/
 inductive Cmd
   | join | part | kick | quit | topic | n332 | nick | mode | n324 | n329 | n353 | n352 | n354 | n367
-  | chghost | n315 | n005 | other
+  | chghost | n315 | n005 | batch | other
 deriving Repr, DecidableEq, Inhabited
 
 def cmdOf (cmd : Str) : Cmd :=
@@ -340,6 +340,7 @@ def cmdOf (cmd : Str) : Cmd :=
   else if key = "CHGHOST".toList then .chghost
   else if key = "315".toList then .n315
   else if key = "005".toList then .n005
+  else if key = "BATCH".toList then .batch
   else .other
 
 /-! the handlers of `IrcState`; the Bool says "raised" -/
@@ -510,13 +511,18 @@ def Bot.stateCmd (b : Bot) (m : Msg) : Bot × Bool :=
   | .chghost => b.doChghost m
   | .n315 => (b, false)
   | .n005 => b.do005 m
+  | .batch => (b, false)      -- `doBatch` only touches `state.batches`, see `Batch.lean`
   | .other => (b, false)
 
-/-- `IrcState.addMsg`: hostmask bookkeeping, then the command handler -/
-def Bot.addMsg (b : Bot) (m : Msg) : Bot × Bool :=
+/-- `IrcState.addMsg`: hostmask bookkeeping, the `batch` tag check, then the command handler.
+`undeclared`: the message carries a `batch` tag that names no open batch; the assertion then fails after
+the hostmask was recorded and before the handler runs. -/
+def Bot.addMsgT (b : Bot) (undeclared : Bool) (m : Msg) : Bot × Bool :=
   let b1 := if isUserHostmask m.pfx && m.cmd != "NICK".toList
             then { b with n2h := aset b.n2h (lower m.nick) m.pfx } else b
-  b1.stateCmd m
+  if undeclared then (b1, true) else b1.stateCmd m
+
+def Bot.addMsg (b : Bot) (m : Msg) : Bot × Bool := b.addMsgT false m
 
 inductive Exc | none | irc | state
 deriving Repr, DecidableEq, Inhabited
@@ -563,7 +569,7 @@ def Bot.tagRaises (b : Bot) (m : Msg) : Bool :=
   | [] => false
 
 /-- `Irc.feedMsg` restricted to `irc.nick`, `irc.prefix` and `irc.state` (`irc.server` is not modelled) -/
-def Bot.feed (b : Bot) (m0 : Msg) : Bot × Exc :=
+def Bot.feedT (b : Bot) (undeclared : Bool) (m0 : Msg) : Bot × Exc :=
   if b.tagRaises m0 then (b, .irc) else
   -- "odd nick-instead-of-prefix" messages
   let m := if m0.pfx = b.nick then { m0 with pfx := if b.pfx.isEmpty then m0.pfx else b.pfx } else m0
@@ -579,8 +585,11 @@ def Bot.feed (b : Bot) (m0 : Msg) : Bot × Exc :=
   if r.2 then (r.1, .irc) else
   let r2 := r.1.ircCmd m
   if r2.2 then (r2.1, .irc) else
-  let r3 := r2.1.addMsg m
+  let r3 := r2.1.addMsgT undeclared m
   (r3.1, if r3.2 then .state else .none)
+
+/-- a message without `batch` tag, or with one naming an open batch -/
+def Bot.feed (b : Bot) (m0 : Msg) : Bot × Exc := b.feedT false m0
 
 def Bot.feedAll (b : Bot) (ms : List Msg) : Bot := ms.foldl (fun b m => (b.feed m).1) b
 
